@@ -15,6 +15,7 @@ CONSTANTS
   OffMinutes,   \* set of offsets in minutes (e.g. -720, -705, ..., 840)
   BadOffsets,   \* malformed offset strings
   Deltas,       \* sequence of clock positions relative to the expiry instant, in seconds, ascending
+  Millis,       \* sequence of sub-second parts (milliseconds) tried at every clock position, e.g. <<0, 999>>
   Probe         \* TRUE: also clean a one-element probe document at every clock position
 
 VARIABLES ti, om, colon, phase
@@ -38,13 +39,16 @@ Base == IF phase = "good" THEN ExpiryInstant(To, Off) ELSE <<19800, 0>>
 Q == <<39>>
 ProbeDoc == DS \o TL \o <<32, 116, 111, 61>> \o Q \o To \o Q \o DE \o <<120>> \o DS \o <<47>> \o TL \o DE
 
-RECURSIVE OpsFrom(_)
-OpsFrom(k) ==
-  IF k > Len(Deltas) THEN <<>>
-  ELSE <<[op |-> "config", now |-> NormInstant(<<Base[1], Base[2] + Deltas[k]>>), off |-> Off],
+RECURSIVE AtClock(_, _)
+AtClock(k, j) ==
+  IF j > Len(Millis) THEN <<>>
+  ELSE <<[op |-> "config", now |-> NormInstant(<<Base[1], Base[2] + Deltas[k]>>), now_ms |-> Millis[j], off |-> Off],
          [op |-> "eval_time", to |-> To, has |-> TRUE, hv |-> TRUE]>>
        \o (IF Probe THEN <<[op |-> "clean"]>> ELSE <<>>)
-       \o OpsFrom(k + 1)
+       \o AtClock(k, j + 1)
+
+RECURSIVE OpsFrom(_)
+OpsFrom(k) == IF k > Len(Deltas) THEN <<>> ELSE AtClock(k, 1) \o OpsFrom(k + 1)
 
 EmitAll == phase # "start" =>
   EmitRec([id |-> "", src |-> ProbeDoc, ops |-> OpsFrom(1)])
